@@ -143,6 +143,17 @@ def manifests(rng, n, fp, ei=True):
     return res
 
 
+def with_reverse_proc(mans, project, fp):
+    """Projects with a generic interface always get the reverse traversal over procedure items on the item graph (two
+    procedures may then be connected only through an item of a non-selected kind)."""
+    if any(m['ifaces'] for m in project['mods']):
+        for plan in ((True,) if not fp else (False, True)):
+            man = {'filter': ['proc'], 'reverse': True, 'filegraph': False, 'procign': False, 'plan': plan}
+            if man not in mans:
+                mans = mans + [man]
+    return mans
+
+
 def build(project, config, root, layout, fp, ei, plain):
     shutil.rmtree(root, ignore_errors=True)
     obs, sched, paths = L.run_scheduler(project, config, root, random.Random(layout), full_parse=fp, enable_imports=ei, plain=plain)
@@ -214,12 +225,13 @@ def run(ctx):
         cproj = C21.corpus_project()
         cpaths, search = C21.corpus_paths()
         corpora.append((cproj, cpaths, search, C21.CORPUS))
+        corpora.append(C21.intf_corpus(ctx))
         for proj_, paths_, search_, entries in corpora:
             for name, cfg, _, _ in entries:
                 cfg_dict, seeds = L.render_config(cfg, L.Layout(plain=True), enable_imports=True)
                 sched = L.build_scheduler(None, cfg_dict, seeds, True, paths=search_)
                 graph = L.project_graph(sched, paths_)
-                for man in manifests(ctx.rng, 4, True):
+                for man in with_reverse_proc(manifests(ctx.rng, 4, True), proj_, True):
                     visits, raised = process_case(sched, graph, paths_, man)
                     runs.append(({'P': proj_, 'C': cfg, 'fp': True, 'ei': True, 'layout': 0, 'plain': True, 'origin': f'corpus:{name}', 'man': man},
                                  {'P': L.tla_project(proj_), 'C': cfg, 'graph': graph, 'man': man, 'visits': visits, 'raised': raised,
@@ -228,18 +240,18 @@ def run(ctx):
         # ---- 3. TLC-enumerated small projects, 4. seeded larger ones
         small = []
         for np_, n in ((3, 30 if quick else 150), (4, 60 if quick else 450)):
-            small += L.gen_small(ctx, n, np_)
+            small += L.gen_small(ctx, n, np_, ifaces=True)
         for i, c in enumerate(small):
             P, C = L.normalize_project(c['P']), L.normalize_config(c['C'])
             fp = i % 4 != 0
             add_all(P, C, fp, i % 3 != 0, ctx.seed * 7919 + i, i % 5 == 0, f'tlc:so={c["so"]}:po={c["po"]}:st={c["st"]}',
-                    manifests(ctx.rng, 3 if quick else 4, fp, i % 3 != 0))
+                    with_reverse_proc(manifests(ctx.rng, 3 if quick else 4, fp, i % 3 != 0), P, fp))
         nsmall = len(runs) - ncorpus
-        legal, yield_ = L.seeded_pairs(ctx, 60 if quick else 450)
+        legal, yield_ = L.seeded_pairs(ctx, 60 if quick else 450, ifaces=True)
         ctx.cover['seeded_candidates_legal'] = yield_
         for i, (P, C) in enumerate(legal):
             fp = i % 4 != 0
-            add_all(P, C, fp, i % 3 != 0, ctx.seed * 104729 + i, False, 'seeded', manifests(ctx.rng, 4 if quick else 5, fp, i % 3 != 0))
+            add_all(P, C, fp, i % 3 != 0, ctx.seed * 104729 + i, False, 'seeded', with_reverse_proc(manifests(ctx.rng, 4 if quick else 5, fp, i % 3 != 0), P, fp))
         ctx.cover['cases'] = {'corpus': ncorpus, 'tlc_small': nsmall, 'seeded': len(runs) - ncorpus - nsmall}
 
     phases['generate_and_run_loki'] = round(ctx.elapsed() - sum(phases.values()), 1)
@@ -295,7 +307,8 @@ def run(ctx):
         'manifests: item_filter in {Procedure, Module, both}, reverse_traversal, traverse_file_graph, process_ignored_items, '
         'strategy SEQUENCE or PLAN (PLAN also without full parse); not covered: mode filter of multi-pipeline processing, strict/external '
         'items, sub_sgraph, `items` of file-graph mode, recursion into modules/procedures',
-        'order clause: a unit may be visited only after all selected units with a direct edge to it (reverse: from it); '
+        'order clause (item graph): a selected item may be visited only after all selected items from which it is reachable in the FULL graph '
+        '(also through non-selected items such as generic interfaces, modules, ignored items); reverse: the converse; '
         'any such order is accepted; in file-graph mode only once/order is checked for the file visits (no role/mode/targets)',
         'TLC and the TLA+ modules are trusted; python renders, runs Loki and records only',
     ]
